@@ -8,7 +8,9 @@ def run(ctx):
     for cfg in (["Gen_n1", "Gen_n2", "Gen_n1z", "Gen_n2z", "Gen_n1u", "Gen_n2u"] if ctx.quick else ["Gen_n1", "Gen_n2", "Gen_n1z", "Gen_n2z", "Gen_n1u", "Gen_n2u", "Gen_n3", "Gen_n3z"]):
         part = ctx.gen("System", "Gen_System.tla", cfg + ".cfg", cfg, workers=8, timeout=3000, heap="12g")
         with open(scen, "a") as out:
-            for line in open(part):
+            for i, line in enumerate(open(part)):
+                if ctx.quick and cfg == "Gen_n2u" and i % 2:
+                    continue                      # quick: every second of the systems coupled with the implicit equation
                 out.write(line.replace('"run":true', '"run":false'))
     ctx.sample(scen, 2)
     trace = ctx.execute("system", scen, timeout_s=60)
